@@ -3,9 +3,10 @@ CONSTANTS
   Design = "code"
   Arity4 = FALSE
   FirstRowCovered = TRUE
-  CompactD1 = FALSE
+  CompactD1 = TRUE
   MaxSponge = 3
   MaxDepth = 4
 INVARIANTS
-  EveryWitnessLimbBound
+  PadsAreFixed
+  EveryChainedLimbBound
 CHECK_DEADLOCK FALSE
